@@ -253,10 +253,21 @@ pub fn target_addr(rng: &mut Rng, class: Target, size: u64, addr32: bool) -> u64
             if addr32 {
                 DATA + 8 * rng.below(0x100)
             } else {
-                HIGH + rng.below(HIGH_LEN as u64 - size)
+                if rng.below(3) == 0 {
+                    // around the 4 GiB boundary inside the region (straddling it, ending at it, starting at it)
+                    HIGH_BOUNDARY + 8 - rng.below(size + 16)
+                } else {
+                    HIGH + rng.below(HIGH_LEN as u64 - size)
+                }
             }
         }
-        Target::Stack => STACK + rng.below(STACK_LEN as u64 - size),
+        Target::Stack => {
+            if rng.below(3) == 0 {
+                STACK_BOUNDARY + 8 - rng.below(size + 16)
+            } else {
+                STACK + rng.below(STACK_LEN as u64 - size)
+            }
+        }
         Target::CodeRegion => CODE + rng.below(CODE_LEN as u64 - size),
         Target::Unmapped => *rng.pick(&[0x5000_0000u64, DATA + DATA_LEN as u64 + 0x800, 0x1000, 0x7fff_0000, 0x4000_0000_0000]),
         Target::Null => rng.below(16),
@@ -710,6 +721,8 @@ pub fn steer(rng: &mut Rng, ins: &Instruction, bytes: &[u8], rip: u64, so: &Stee
             8 => s + 0x801 + rng.below(7),
             9 => s + l + 8,
             10 => s - 8,
+            // around the 64 KiB boundary in the middle of the region: the update of RSP carries into bit 16
+            11..=14 => (STACK_BOUNDARY + 16).wrapping_sub(*rng.pick(&[0u64, 2, 4, 6, 8, 10, 12, 14, 16, 18, 20, 24, 32])),
             _ => s + 0x100 + 8 * rng.below((l - 0x200) / 8),
         };
     } else if rng.below(3) == 0 {
